@@ -190,6 +190,7 @@ class OptimizerGeneric:
                                        bounds=bounds,
                                        options=options,
                                        tol=tol)
+        self._fun(result.x)  # leave the lens at the returned solution
         return result
 
     def undo(self):
@@ -282,6 +283,7 @@ class LeastSquares(OptimizerGeneric):
                                             max_nfev=maxiter,
                                             verbose=verbose,
                                             ftol=tol)
+        self._fun(result.x)  # leave the lens at the returned solution
         return result
 
 
@@ -324,6 +326,7 @@ class DualAnnealing(OptimizerGeneric):
                                              bounds=bounds,
                                              maxiter=maxiter,
                                              x0=x0)
+        self._fun(result.x)  # leave the lens at the returned solution
         return result
 
 
@@ -386,4 +389,5 @@ class DifferentialEvolution(OptimizerGeneric):
                                                      disp=disp,
                                                      updating=updating,
                                                      workers=workers)
+        self._fun(result.x)  # leave the lens at the returned solution
         return result
